@@ -97,6 +97,9 @@ func main() {
 			fmt.Fprintln(stdout, "no violation; inconclusive:", o.Inconclusive)
 			os.Exit(0)
 		}
+		if o.Violations[0].ReplayP != nil {
+			c.P = o.Violations[0].ReplayP
+		}
 		tmpd, _ := os.MkdirTemp("", "shrink")
 		in := filepath.Join(tmpd, "in.json")
 		b, _ := json.Marshal(c)
@@ -658,6 +661,10 @@ func parentRun(args []string) int {
 		c := chk.Gen(core.RunSeed(seed, id, firstViol.Run), firstViol.Run, tier)
 		c.BaseSeed, c.Run, c.Tier, c.Check, c.Property = seed, firstViol.Run, tier, id, id
 		c.Expect, c.ExpectSig, c.TraceHash, c.Note = firstV.Class, firstV.Sig, firstViol.TraceHash, firstV.Detail
+		if firstV.ReplayP != nil {
+			c.P = firstV.ReplayP
+			c.TraceHash = ""
+		}
 		c.Fingerprint = os.Getenv("VGWSIM_FINGERPRINT")
 		rdir := filepath.Join(verifDir, "replays")
 		os.MkdirAll(rdir, 0o755)
